@@ -177,8 +177,28 @@ func (w *c11World) label(name string) m.SwitchLabel {
 func (w *c11World) opAdd() {
 	c := w.c
 	var e m.RoutingTableEntry
-	shape := c.Weighted("add.shape", 3, 3, 10, 3)
+	shape := c.Weighted("add.shape", 3, 3, 10, 3, 4)
+	var existing []m.RoutingTableEntry
+	if shape == 4 {
+		for _, x := range w.tbl.VerifEntries() {
+			if x.Source != m.RouteSourcePeer && len(x.Path.Hops) >= 2 {
+				existing = append(existing, x)
+			}
+		}
+		if len(existing) == 0 {
+			shape = 2
+		}
+	}
 	switch shape {
+	case 4: // a route the table holds is announced again: same relays and labels, other delays (latency fluctuates between rounds)
+		x := existing[c.Pick("add.again", len(existing))]
+		hops := append([]m.SwitchHop(nil), x.Path.Hops...)
+		for i := 0; i < len(hops)-1; i++ {
+			hops[i].Delay = c11Delay(c, "add.again.delay")
+		}
+		e = m.RoutingTableEntry{DstIP: x.DstIP, NextHop: x.NextHop, Source: x.Source, Stub: x.Stub,
+			Path: m.SwitchPath{Hops: hops}, Expires: time.Now().Add(time.Duration(c.Int("add.exp.min", 11, 600)) * time.Minute)}
+		c.Class("route-announced-again-with-other-delays")
 	case 0: // link registration
 		p := w.peers[c.Pick("add.peer", len(w.peers))]
 		e = m.RoutingTableEntry{DstIP: p, NextHop: p, Source: m.RouteSourcePeer}
@@ -192,6 +212,13 @@ func (w *c11World) opAdd() {
 	default: // gossip / discovered via k relays
 		nh := w.peers[c.Pick("add.nexthop", len(w.peers))]
 		dst := w.pickAddr("add.dst")
+		if c.Chance("add.dst.is-a-peer", 1, 5) {
+			// a router that is (or becomes) a direct peer is also known through others
+			dst = w.peers[c.Pick("add.dst.peer", len(w.peers))]
+			if dst == nh {
+				dst = w.pickAddr("add.dst")
+			}
+		}
 		k := c.Int("add.relays", 0, 4)
 		hops := []m.SwitchHop{{Router: w.self, Delay: c11Delay(c, "add.d0"), ForwardLabel: w.label("add.l0")}}
 		hops = append(hops, m.SwitchHop{Router: nh, Delay: c11Delay(c, "add.d1"), ForwardLabel: w.label("add.f1"), ReturnLabel: w.label("add.r1")})
